@@ -19,6 +19,7 @@ import (
 	"github.com/btcsuite/btcd/chaincfg"
 	"github.com/elnosh/gonuts/cashu/nuts/nut10"
 	"github.com/elnosh/gonuts/cashu/nuts/nut11"
+	"github.com/elnosh/gonuts/cashu/nuts/nut14"
 	"github.com/decred/dcrd/dcrec/secp256k1/v4"
 	"github.com/decred/dcrd/dcrec/secp256k1/v4/ecdsa"
 	"github.com/lightningnetwork/lnd/lnwire"
@@ -384,5 +385,38 @@ func TestVerifReplay_SameKeyCountedTwice(t *testing.T) {
 	o := vOutputs(t, m, []uint64{4})
 	if _, err := m.Swap(lp, o.bms); err == nil {
 		t.Fatalf("CONFIRMED: 3-of-{k1,k2} lock spent with signatures of only two distinct keys (%s)", fmt.Sprint(len(sigs)))
+	}
+}
+
+// The witnesses produced by the library's own HTLC helpers for inputs and
+// outputs of a SIG_ALL swap must be accepted by the mint.
+func TestVerifReplay_HTLCHelperOutputWitness(t *testing.T) {
+	m := vNewMint(t, 0, nil)
+	key, _ := btcec.NewPrivateKey()
+	pub := hex.EncodeToString(key.PubKey().SerializeCompressed())
+	preimage := "0000000000000000000000000000000000000000000000000000000000000001"
+	pb, _ := hex.DecodeString(preimage)
+	h := sha256.Sum256(pb)
+	sec, err := nut10.NewSecretFromSpendingCondition(nut10.SpendingCondition{Kind: nut10.HTLC, Data: hex.EncodeToString(h[:]),
+		Tags: [][]string{{"sigflag", "SIG_ALL"}, {"n_sigs", "1"}, {"pubkeys", pub}}})
+	if err != nil {
+		t.Fatal(err)
+	}
+	lp := vLockedProofs(t, m, []uint64{4}, []string{sec})
+	ws, err := nut10.DeserializeSecret(sec)
+	if err != nil {
+		t.Fatal(err)
+	}
+	inputs, err := nut14.AddWitnessHTLC(lp, ws, preimage, key)
+	if err != nil {
+		t.Fatal(err)
+	}
+	o := vOutputs(t, m, []uint64{4})
+	outs, err := nut14.AddWitnessHTLCToOutputs(o.bms, preimage, key)
+	if err != nil {
+		t.Fatal(err)
+	}
+	if _, err := m.Swap(inputs, outs); err != nil {
+		t.Fatalf("CONFIRMED: the mint refuses the output witness made by nut14.AddWitnessHTLCToOutputs: %v", err)
 	}
 }
